@@ -347,6 +347,12 @@ func selectSetForRecursion(ctx context.Context, scope *ReferenceScope, view *Vie
 	if err = rview.Header.Update(tmpViewName, scope.RecursiveTable.Fields); err != nil {
 		return err
 	}
+	if len(scope.RecursiveTable.Fields) < 1 {
+		// Without a column list the columns of the recursive table are named after the first query in every iteration.
+		for i := range rview.Header {
+			rview.Header[i].Column = view.Header[i].Column
+		}
+	}
 	scope.RecursiveTmpView = rview
 
 	return selectSetForRecursion(ctx, scope, view, set, forUpdate)
